@@ -66,7 +66,7 @@ def units(tier):
                 us.append(dict(h="fix_prog", prog=p, line=li, j=j, o=o, var=var, sym=sym, hole=hole, std="f2003" if rot % 2 else "f2008", cost=2))
     # a character literal running over three physical lines (columns 7-72 of the middle line are all
     # literal text), two symbolic characters in one of the segments, comment lines in between
-    for where in ("first", "mid", "last"):
+    for where in ("first", "mid", "last", "open2", "close2"):
         for var in ("plain", "c12", "c23", "both"):
             for ic in (True, False):
                 for std in (("f2003",) if q else ("f2003", "f2008")):
@@ -196,16 +196,30 @@ def fix_longlit(ctx):
         seg3 = "e" + x + "d"
     intro = ctx.chars("intro", 1, "cC*!")
     com = intro + " note ' it"
-    out = ["      program pg", "      a = '" + seg1]
+    if p["where"] == "open2":
+        # the literal is opened on the first continuation line (which has no '!')
+        seg3 = "e" + x + "d"
+        l1, l2, l3 = "      a = b2 //", "     &'" + seg2[:65], "     &" + seg3 + "'"
+        stmt = "a = b2 //'" + seg2[:65] + seg3 + "'"
+    elif p["where"] == "close2":
+        # a literal is closed and another one opened on the first continuation line
+        seg3 = "e" + x + "d"
+        mid = "xyz' // '" + seg2[:57]
+        l1, l2, l3 = "      a = '" + seg1, "     &" + mid, "     &" + seg3 + "'"
+        stmt = "a = '" + seg1 + mid + seg3 + "'"
+    else:
+        l1, l2, l3 = "      a = '" + seg1, "     &" + seg2, "     &" + seg3 + "'"
+        stmt = "a = '" + seg1 + seg2 + seg3 + "'"
+    out = ["      program pg", l1]
     if p["var"] in ("c12", "both"):
         out.append(com)
-    out.append("     &" + seg2)
+    out.append(l2)
     if p["var"] in ("c23", "both"):
         out.append(com)
-    out.append("     &" + seg3 + "'")
+    out.append(l3)
     out += ["      b2 = 1", "      end program pg"]
     fixed = "\n".join(out) + "\n"
-    canon = "program pg\na = '" + seg1 + seg2 + seg3 + "'\nb2 = 1\nend program pg\n"
+    canon = "program pg\n" + stmt + "\nb2 = 1\nend program pg\n"
     ctx.observe("fixed", fixed)
     fmt = get_source_info_str(fixed)
     ctx.check(not fmt.is_free, "fixed-form source detected as free form")
